@@ -176,6 +176,25 @@ type hstate struct {
 	lastAnswer  string
 	pendingFail bool // the last answer was a failure and the height was not asked for since
 	done        bool
+	// one pass = a listing and the fetches that follow it until the height is listed again. What a node OWES (handing
+	// the genuine blobs to sync) is judged per pass: a pass in which any fetch failed may be thrown away as a whole -
+	// also by a node that fetches its chunks side by side, where the calls after the failing one still succeed.
+	passIDs     map[string]bool
+	passFetched map[string]bool
+	passFailed  bool
+}
+
+// passComplete: the latest listing's ids were all returned by successful fetches of the same pass, none of which failed.
+func (h *hstate) passComplete() bool {
+	if h == nil || !h.listed || h.passFailed || h.passIDs == nil {
+		return false
+	}
+	for id := range h.passIDs {
+		if !h.passFetched[id] {
+			return false
+		}
+	}
+	return true
 }
 
 // complete: the height was confirmed to hold none, or it was listed and every listed id was returned by a
@@ -313,8 +332,10 @@ func judge(start, last uint64, recs []rec, finalCursor uint64, haveFinal, idle b
 			switch c.Outcome {
 			case "ok":
 				st.listed = true
+				st.passIDs, st.passFetched, st.passFailed = map[string]bool{}, map[string]bool{}, false
 				for _, id := range c.IDs {
 					st.ids[id] = true
+					st.passIDs[id] = true
 				}
 			case "notfound":
 				st.none = true
@@ -334,9 +355,13 @@ func judge(start, last uint64, recs []rec, finalCursor uint64, haveFinal, idle b
 				st.lastAnswer = "get-ok"
 				for _, id := range c.IDs {
 					st.fetched[id] = true
+					if st.passFetched != nil {
+						st.passFetched[id] = true
+					}
 				}
 			} else {
 				st.lastAnswer = "chunkerr"
+				st.passFailed = true
 				if !was {
 					st.pendingFail = true
 					v.failures++
@@ -355,7 +380,7 @@ func judge(start, last uint64, recs []rec, finalCursor uint64, haveFinal, idle b
 				}
 			}
 		}
-		if st.allFetched() {
+		if st.passComplete() {
 			v.fetchedOK[c.H] = true
 		}
 	}
